@@ -88,17 +88,33 @@ pub fn run(case: &Value) -> Value {
             })
         })
         .collect();
+    let scans = scan_inputs(&scanner, case);
+    // the same rules compiled with the other compiler profile (the Aho-Corasick automaton is built
+    // differently): the answers must not depend on it
+    let mut out = json!({"desc": desc, "scans": scans});
+    if case["both_profiles"].as_bool() == Some(true) {
+        let mut c2 = case.clone();
+        c2["profile"] = json!(if case["profile"].as_str() == Some("memory") { "speed" } else { "memory" });
+        out["scans_other_profile"] = match bvh::scan::compile(&c2) {
+            Ok(s2) => json!(scan_inputs(&s2, case)),
+            Err(e) => json!({"compile_error": e}),
+        };
+    }
+    out
+}
+
+fn scan_inputs(scanner: &boreal::Scanner, case: &Value) -> Vec<Value> {
     let mut scans = Vec::new();
     if let Some(inputs) = case["inputs"].as_array() {
         for inp in inputs {
             let mut c = case.clone();
             c["input"] = json!({"mem": inp});
-            let r = std::panic::catch_unwind(std::panic::AssertUnwindSafe(|| bvh::scan::scan_with(&scanner, &c)));
+            let r = std::panic::catch_unwind(std::panic::AssertUnwindSafe(|| bvh::scan::scan_with(scanner, &c)));
             scans.push(match r {
                 Ok(v) => v,
                 Err(e) => json!({"panic": bvh::panic_message(&*e)}),
             });
         }
     }
-    json!({"desc": desc, "scans": scans})
+    scans
 }
